@@ -28,7 +28,7 @@ PROP = {
         "Wm.Handle.nack_on_error", "Wm.Handle.nack_on_panic", "Wm.Handle.nack_on_publish_failure", "Wm.Handle.nopub_outputs_nack",
         "Wm.Handle.publish_before_ack", "Wm.Handle.publish_before_ack_idx",
         "Wm.Handle.no_publish_on_error", "Wm.Handle.no_publish_on_panic",
-        "Wm.Handle.publish_effects", "Wm.Handle.publish_at_most_once_in_order", "Wm.Handle.no_publish_when_no_outputs",
+        "Wm.Handle.publish_effects", "Wm.Handle.publish_at_most_once_in_order", "Wm.Handle.no_publish_when_no_outputs", "Wm.Handle.publish_call_then_ret",
         "Wm.Handle.always_settled", "Wm.Handle.self_settlement_wins", "Wm.Handle.final_settlement", "Wm.Handle.state_inside_publish",
         "Wm.Handle.proj_interleave", "Wm.Handle.inflight_independent", "Wm.Handle.inflight_settles_exactly_once",
         "Wm.Handle.inflight_publish_before_ack", "Wm.Handle.inflight_ack_iff", "Wm.Handle.inflight_self_settlement_wins",
@@ -41,10 +41,12 @@ PROP = {
     "nontrivial": nontrivial,
     "rule": "run: a real message.Router (one per case) with a scripted subscriber, handler and publisher. Exhaustive matrix: handler kind "
             "{AddHandler+publisher, AddHandler+nil publisher, AddNoPublisherHandler, AddNoPublisherHandler+recording publisher decorator} x "
-            "middleware prefix {-, p, o, po, op, oo} (p passthrough, o output-adding) x handler self-settlement {none, Ack, Nack} x result "
+            "middleware prefix {-, p, o, po, op, oo, P, O, pO, Op} (p passthrough, o output-adding; lower case router level, upper case "
+            "handler level) x handler self-settlement {none, Ack, Nack} x result "
             "{0/1/3 outputs; plain error with 0/1/3 outputs; context.Canceled with 0/2 outputs; panic(value|error|nil)} x publisher "
             "{accept, error, panic}; plus seeded batches of 2..64 messages in flight together on one handler (all handlers parked at a gate, "
-            "released in seeded order, half of them overlapping), second half of the batches (and, thorough, a second pass over the matrix) "
+            "released in seeded order, half of them overlapping; in every other batch all publishing messages are additionally parked "
+            "inside Publish together and released in a second seeded order), second half of the batches (and, thorough, a second pass over the matrix) "
             "with yield injection at router.handle.start/before_publish/before_settle and inside Publish. The publisher samples the "
             "consumed message's Acked()/Nacked() inside Publish (entry and exit); the final settlement is read after Router.Close() "
             "returned (barrier: all handleMessage goroutines finished). Oracle: per-message event list equal to the Lean model's, and the "
